@@ -48,12 +48,14 @@ PROPS = {
                                             res_contains=("sendclosed", "recvclosed")), title="disconnect"),
     "C12": dict(suites=["h1"], cone=mk_cone(kinds={"clone", "droph", "close"}, obs={"sendercount", "receivercount"}),
                 title="handle counts"),
-    "C13": dict(suites=["h1"], cone=mk_cone(kinds={"sendto", "sendoptto", "recvto"}), title="timed operations"),
-    "C14": dict(suites=["h1"], cone=mk_cone(kinds=TRYK), title="non-blocking operations"),
-    "C15": dict(suites=["h1"], cone=mk_cone(kinds={"dropf"}, after={"dropf"}), title="dropping a future"),
-    "C16": dict(suites=["h1"], cone=mk_cone(kinds={"poll", "streamterm", "mksend", "mkrecv", "mkstream"}), title="polling contract"),
+    "C13": dict(suites=["h1"], cone=mk_cone(kinds={"sendto", "sendoptto", "recvto"}), need={"sendto", "sendoptto", "recvto"},
+                title="timed operations"),
+    "C14": dict(suites=["h1"], cone=mk_cone(kinds=TRYK), need=TRYK, title="non-blocking operations"),
+    "C15": dict(suites=["h1"], cone=mk_cone(kinds={"dropf", "T"}, after={"dropf"}), need={"dropf"}, title="dropping a future"),
+    "C16": dict(suites=["h1"], cone=mk_cone(kinds={"poll", "streamterm", "mksend", "mkrecv", "mkstream"}), need={"poll"},
+                title="polling contract"),
     "C18": dict(suites=["h1"], cone=cone_all, title="single-threaded reference"),
-    "C19": dict(suites=["h1"], cone=mk_cone(kinds={"drain"}), title="drain_into"),
+    "C19": dict(suites=["h1"], cone=mk_cone(kinds={"drain"}), need={"drain"}, title="drain_into"),
 }
 
 H1_BUDGET = {"quick": (6000, 28), "thorough": (400000, 40)}
@@ -70,6 +72,8 @@ TRUSTED = [
 
 def field_diff(a, b):
     pa, pb = M.parse_out(a), M.parse_out(b)
+    if a.startswith("<stopped") or b.startswith("<stopped"):
+        return {"crash"}
     if a.startswith("T ") or b.startswith("T "):
         return {"T"}
     if pa is None or pb is None:
@@ -131,55 +135,101 @@ def corpus_text():
     return "".join(out)
 
 
+def stopped_witness(calls, il, ml):
+    """the implementation hung or crashed where the reference completes: a concrete failing input"""
+    if il and il[-1].startswith("<stopped"):
+        i = len(il) - 1
+        where = ("call %d (%s)" % (i, calls[i])) if i < len(calls) else "tear-down (dropping the remaining futures, then the handles)"
+        return ["the real crate hangs or crashes at %s; the reference channel completes it with: %s" %
+                (where, ml[i] if ml and i < len(ml) else "?")]
+    return []
+
+
+def examine(prop, head, labels, g):
+    """turn one model/implementation mismatch into a violation record for `prop`, or None when the
+    divergence is outside the property's cone"""
+    spec = PROPS[prop]
+    cone = spec["cone"]
+    mon = M.MONITORS.get(prop)
+    small, r = shrink_divergence(head, labels)
+    if r is None or r == "illegal":
+        small, r = labels, K.compare_one(head, labels)
+        if r is None or r == "illegal":
+            return None, None
+    i2, ml, il = r
+    kind, flds, ctx = divergence_info(head, small, i2 if isinstance(i2, int) else -1, ml, il)
+    key = (kind, tuple(sorted(flds)), " ".join(re.sub(r"\d+", "#", l) for l in small))
+    mv = mon(M.Hist(head, small, il)) if (mon and il) else []
+    incone = cone(kind, flds, ctx)
+    if incone and not mv:
+        mv = stopped_witness(small, il, ml)
+    need = spec.get("need")
+    if not mv and not incone and need and any(l.split()[0] in need for l in labels):
+        # are the property's own calls necessary for the failure?
+        stripped = [l for l in labels if l.split()[0] not in need]
+        r2 = K.compare_one(head, stripped) if stripped else None
+        if r2 is None or r2 == "illegal":
+            def pred(h, ls):
+                rr = K.compare_one(h, ls)
+                if rr is None or rr == "illegal":
+                    return False
+                j = rr[0] if isinstance(rr[0], int) and rr[0] >= 0 else len(ls)
+                return any(l.split()[0] in need for l in ls[:j + 1])
+            small = K.shrink(head, labels, pred)
+            r = K.compare_one(head, small)
+            if r is not None and r != "illegal":
+                i2, ml, il = r
+                kind, flds, ctx = divergence_info(head, small, i2 if isinstance(i2, int) else -1, ml, il)
+                key = (kind, tuple(sorted(flds)), " ".join(re.sub(r"\d+", "#", l) for l in small))
+                mv = mon(M.Hist(head, small, il)) if (mon and il) else []
+                incone = True
+                if not mv:
+                    mv = stopped_witness(small, il, ml)
+    if not mv and mon and g:
+        # the unshrunk history may violate the monitor even if the shrunk divergence does not
+        if mon(M.Hist(head, labels, g)):
+            small2 = shrink_monitor(head, labels, mon)
+            rc, out = K.run_impl(K.one_history_text(head, small2), timeout=20)
+            il2 = K.parse_blocks(out).get(head.split()[1]) or []
+            mv2 = mon(M.Hist(head, small2, il2))
+            if mv2:
+                mv, small, il = mv2, small2, il2
+                rcm, outm = K.run_model(K.one_history_text(head, small2))
+                ml = K.parse_blocks(outm).get(head.split()[1]) or []
+    if mv:
+        return key, {"witness": True, "header": head, "calls": small, "implementation": il, "model": ml,
+                     "monitor": mv, "suite": "H1"}
+    if incone:
+        return key, {"witness": False, "header": head, "calls": small, "implementation": il, "model": ml,
+                     "diverges_at_call": i2, "fields": sorted(flds), "suite": "H1",
+                     "broken": "correspondence H1 (sequential differential against Atomic.astep) at a %s call" % kind}
+    return key, None
+
+
 def run_h1(prop, tier, seed, report):
     """returns list of violation dicts"""
     count, maxlen = H1_BUDGET[tier]
     stats, mism = K.h1_suite(seed, count, maxlen, shards=16 if tier == "thorough" else 8, extra_hist=corpus_text())
     report["h1"] = stats
     viols = []
-    cone = PROPS[prop]["cone"]
-    mon = M.MONITORS.get(prop)
     seen = set()
     outside = 0
-    for head, labels, idx, e, g in mism[:40]:
-        small, r = shrink_divergence(head, labels)
-        if r is None or r == "illegal":
-            small, r = labels, K.compare_one(head, labels)
-            if r is None or r == "illegal":
-                continue
-        i2, ml, il = r
-        kind, flds, ctx = divergence_info(head, small, i2 if isinstance(i2, int) else -1, ml, il)
-        key = (kind, tuple(sorted(flds)), " ".join(re.sub(r"\d+", "#", l) for l in small))
-        if key in seen:
+    t_end = time.time() + (60 if tier == "quick" else 600)
+    for head, labels, idx, e, g in mism[:60]:
+        if time.time() > t_end:
+            break
+        key, v = examine(prop, head, labels, g)
+        if key is None or key in seen:
             continue
         seen.add(key)
-        mv = mon(M.Hist(head, small, il)) if (mon and il) else []
-        if not mv and mon and g:
-            # the unshrunk history may violate the monitor even if the shrunk divergence does not
-            mv0 = mon(M.Hist(head, labels, g))
-            if mv0:
-                small2 = shrink_monitor(head, labels, mon)
-                rc, out = K.run_impl(K.one_history_text(head, small2), timeout=20)
-                il2 = K.parse_blocks(out).get(head.split()[1]) or []
-                mv = mon(M.Hist(head, small2, il2))
-                if mv:
-                    small, il = small2, il2
-                    rcm, outm = K.run_model(K.one_history_text(head, small2))
-                    ml = K.parse_blocks(outm).get(head.split()[1]) or []
-        if mv:
-            viols.append({"witness": True, "header": head, "calls": small, "implementation": il, "model": ml,
-                          "monitor": mv, "suite": "H1"})
-        elif cone(kind, flds, ctx):
-            viols.append({"witness": False, "header": head, "calls": small, "implementation": il, "model": ml,
-                          "diverges_at_call": i2, "fields": sorted(flds), "suite": "H1",
-                          "broken": "correspondence H1 (sequential differential against Atomic.astep) at a %s call" % kind})
-        else:
+        if v is None:
             outside += 1
-        if len(viols) >= 5:
+            continue
+        viols.append(v)
+        if v.get("witness") or len(viols) >= 4:
             break
     report["h1_divergences"] = len(mism)
     report["h1_divergences_outside_cone"] = outside
-    # independent of any divergence: the implementation-side monitor on a sample of the run
     return viols
 
 
